@@ -218,3 +218,12 @@ def run(ctx):
         ctx.check("R20.3", f"{wf.key}::sampling variant pairs the same likelihood and prior parts, samples with the SAMPLING controller, inverts with the inversion controller", ok_se, str(alts), wf)
     else:
         ctx.und("R20.3", f"{wf.key}::InversionEnabler(op, controller, preconditioner)", src(e), wf)
+
+
+_run_c20c = run
+
+
+def run(ctx):  # noqa: F811
+    _run_c20c(ctx)
+    from .refusal import refusal_rule
+    refusal_rule(ctx, "R20.4", ["nifty.re.evi"], "the Wiener-filter entry point", only={"wiener_filter_posterior"}, floor=1)
